@@ -430,9 +430,14 @@ func report(o *runOpts, prop string, frs []*FuncResult, wall float64) int {
 		},
 		"assumptions": as,
 	}
-	os.MkdirAll(filepath.Join(o.verif, "evidence"), 0o755)
+	evDir := filepath.Join(o.verif, "evidence")
+	if d := os.Getenv("GCV_OVERLAY"); d != "" {
+		// a run against patched sources (mutation testing) must not replace the evidence of /repo
+		evDir = filepath.Join(d, "evidence")
+	}
+	os.MkdirAll(evDir, 0o755)
 	data, _ := json.MarshalIndent(ev, "", " ")
-	os.WriteFile(filepath.Join(o.verif, "evidence", prop+".json"), data, 0o644)
+	os.WriteFile(filepath.Join(evDir, prop+".json"), data, 0o644)
 
 	for _, l := range knownLines {
 		fmt.Println(l)
